@@ -438,6 +438,59 @@ case_hdp(long idx, void *ctx)
     tc_cleanup();
 }
 
+/* hdp dumpvd on a Vdata that is larger than hdp's 1 MiB read buffer and whose record count is no multiple of what
+   fits into that buffer: as many values as the API returns, and the same ones */
+static void
+case_hdp_big(long idx, void *ctx)
+{
+    (void)ctx;
+    static const long NREC[] = {300000, 262144 + 1, 90000};
+    static const int  ORD[]  = {1, 1, 3};
+    long nrec = NREC[idx % 3];
+    int  ord  = ORD[idx % 3];
+    int  cfg[2] = {5, (int)idx};
+    mc_set_config(cfg, 2, "family=hdp-large-vdata");
+    snprintf(g_case, sizeof g_case, "Vdata of %ld records of %d int32 (more than hdp reads at once)", nrec, ord);
+    mc_set_case("%s", g_case);
+    tc_workdir("C19", 4000 + idx);
+    int32 *v = malloc((size_t)nrec * ord * 4);
+    for (long i = 0; i < nrec * ord; i++)
+        v[i] = (int32)(i * 7 - 1000);
+    int32 f = Hopen(tc_path("f.hdf"), DFACC_CREATE, 0);
+    Vstart(f);
+    int32 vs = VSattach(f, -1, "w");
+    VSsetname(vs, "big");
+    VSfdefine(vs, "val", DFNT_INT32, ord);
+    if (VSsetfields(vs, "val") == FAIL || VSwrite(vs, (uint8 *)v, (int32)nrec, FULL_INTERLACE) != nrec || VSdetach(vs) == FAIL || Vend(f) == FAIL || Hclose(f) == FAIL) {
+        mc_harness_error("cannot write the large Vdata");
+        free(v);
+        return;
+    }
+    char *a[] = {"dumpvd", "-d", "-n", "big", "f.hdf", NULL}, *out = NULL;
+    int   rc  = tc_run("hdp", a, &out);
+    if (!tc_tool_crashed("hdp", rc, out, g_case)) {
+        if (rc != 0)
+            mc_violation("hdp:dumpvd:exit-status", "%s: hdp dumpvd -d -n big exits %d: %.300s", g_case, rc, out);
+        else {
+            char *save = NULL, *tok = strtok_r(out, " \t\r\n", &save);
+            long  k = 0, total = nrec * ord;
+            for (; tok && k < total; k++, tok = strtok_r(NULL, " \t\r\n", &save))
+                if (strtod(tok, NULL) != (double)v[k]) {
+                    mc_violation("hdp:dumpvd:value", "%s: value #%ld printed by hdp dumpvd -d is '%s', the Vdata holds %d", g_case, k, tok, (int)v[k]);
+                    break;
+                }
+            if (k == total && tok)
+                mc_violation("hdp:dumpvd:value-count", "%s: hdp dumpvd -d prints more values than the %ld the Vdata holds ('%s' ...)", g_case, total, tok);
+            else if (k < total && !tok)
+                mc_violation("hdp:dumpvd:value-count", "%s: hdp dumpvd -d stops after %ld of %ld values", g_case, k, total);
+            mc_count("dumps_compared", 1);
+        }
+    }
+    free(out);
+    free(v);
+    tc_cleanup();
+}
+
 /* ================================================================== (d) hdfimport */
 static const struct {
     const char *fmt;     /* input format designator */
@@ -714,6 +767,8 @@ C19_main(const char *tier, const char *replay)
             case_hdiff_special(cfg[1], NULL);
         else if (cfg[0] == 4)
             case_import_pair(cfg[1] + (long)NIMP * cfg[2], NULL);
+        else if (cfg[0] == 5)
+            case_hdp_big(cfg[1], NULL);
         else
             case_import(cfg[1] + (long)NIMP * cfg[2], NULL);
         printf("replay C19: %s (files kept in %s)\n", g_case, tc_work);
@@ -731,6 +786,9 @@ C19_main(const char *tier, const char *replay)
     mc_round_end();
     mc_round_begin("hdp");
     mc_foreach(6, case_hdp, NULL, 1, 300);
+    mc_round_end();
+    mc_round_begin("hdp: Vdatas larger than its read buffer");
+    mc_foreach(3, case_hdp_big, NULL, 1, 600);
     mc_round_end();
     mc_round_begin("hdfimport");
     mc_foreach((long)NIMP * NIDIMS, case_import, NULL, 1, 300);
